@@ -107,6 +107,25 @@ CHECKS = {
              'proxy signal subscriptions with matching and mismatching signatures, and through Bus.dbus_AddMatch; after '
              'each delivery the invoked callbacks must equal the active rules the reference matcher accepts.',
         note=TRUST),
+    'C13': dict(
+        category='exploration', design_ref='DESIGN.md section 3 C13',
+        technique='model-based testing: bounded-exhaustive + random name-ownership histories on the real Bus against a reference name table',
+        text='Every history of RequestName (8 flag words) / ReleaseName / disconnect of length <=3 (quick) / <=4 (thorough) '
+             'by 3 clients on one name, and random histories to 40 steps with 4 clients and 2 names, run on the real Bus '
+             'through raw scripted clients (real handshake, Hello, wire messages); after every step reply code, '
+             'NameAcquired/NameLost signals, GetNameOwner and ListQueuedOwners are compared with a reference name table. '
+             'requestBusName flag bits and FailedToAcquireName mapping are enumerated exhaustively.',
+        note='in-memory transports; bus mechanisms as configured by default; ' + TRUST),
+    'C14': dict(
+        category='exploration', design_ref='DESIGN.md section 3 C14',
+        technique='model-based routing histories with generated/exhaustive delivery interleavings on the real Bus',
+        text='Histories of connects, disconnects, name ownership incl. waiting clients, AddMatch/RemoveMatch and bursts of '
+             'in-flight unicast (all four types, forged/absent/true sender, either byte order, bodies from the full value '
+             'space) and broadcast messages; the bus reads the per-client byte queues in drawn (client, chunk) '
+             'interleavings, exhaustively at message granularity for 2-3 clients x 2-3 messages; every client inbox is '
+             'compared with a model of owners and rule sets (exactly-once, right peer, true sender, order, verbatim '
+             'content, bus-addressed messages answered and not forwarded).',
+        note='broadcast multiplicity and the fate of messages to unowned names are not asserted; ' + TRUST),
     'C15': dict(
         category='exploration', design_ref='DESIGN.md section 3 C15',
         technique='Hypothesis-generated interface definitions, XML round trip with an independent ElementTree reading and reference signature splitter',
